@@ -11,6 +11,7 @@ import astropy.units as u
 import dask.array as da
 import pulsarbat as pb
 from harness.common import qlit, zlit, listlit, float_lit
+from harness.common import asked_before
 from harness import exact as X
 from harness.c03 import bcast_elems, _same
 
@@ -134,6 +135,8 @@ def run(ctx):
         if len(sh) < rank or any(a == 1 and b != 1 for a, b in zip(sh, ss)):
             ctx.count('broadcast_needed')
         err = None
+        if asked_before(ctx, rng, lambda: pb.freq_shift(zz, arg)):
+            inp['asked_before'] = True
         try:
             y = pb.freq_shift(zz, arg)
             yd = np.asarray(y.data.compute() if use_dask else y.data)
